@@ -41,6 +41,31 @@ contract(
 )
 
 
+# the public entry point: TourLength.evaluate hands the instance matrix and x to tour_length (modular call: only the
+# kernel's contract is known here)
+contract(
+    TL + ":TourLength.evaluate",
+    props="C05",
+    params={"x": A1("X")},
+    ghosts={"dist": A2("D"), "n": INT, "M": INT},
+    returns=INT,
+    attrs={"self.instance": "dist"},
+    requires=[
+        "n >= 1 and len(x) == n and shape(dist, 0) == n and shape(dist, 1) == n",
+        "forall(k, 0, n, 0 <= x[k] and x[k] < n)",
+        "M >= 0 and n * M <= 2**62",
+        "forall(a, 0, n, forall(b, 0, n, 0 <= dist[a, b] and dist[a, b] <= M))",
+        "D_hi <= 2**63 - 1 and X_hi <= 2**63 - 1",
+    ],
+    calls={"tour_length": {"n": "n", "M": "M"}},
+    ensures=[
+        tag("C05", "cyclic-sum", "result == cyc(dist, x, n, n)"),
+        tag("C05", "nonneg", "0 <= result and result <= n * M"),
+    ],
+    must_fail=["result == 0"],
+)
+
+
 # ---------------------------------------------------------------- path-sum lemmas (proved by induction, applied explicitly)
 lemma("path_split", {"d": "arr2", "x": "arr1", "a": "int", "b": "int", "c": "int"},
       ["a <= b", "b <= c"], "path(d, x, a, c) == path(d, x, a, b) + path(d, x, b, c)", induct="c", base="b")
